@@ -341,7 +341,40 @@ def r05_6(run, model):
     run.floor("binder insertions in the resolver", n, 3)
 
 
+def r05_7(run, model):
+    run.rule("R05.7", "a let's binder is not visible in its own initialiser: in the resolver's ELet arm the value is resolved before the "
+                      "pattern on every path (no path resolves the pattern first)")
+    NR = "crates/compiler/src/typer/name_resolution.rs"
+    f = model.fn("resolve_expr", NR)
+    found = False
+    for m in S.find(f.body, "Match"):
+        for arm in m["arms"]:
+            if not re.match(r"ast::Expr::ELet\{", S.norm_ws(run.facts.text(NR, arm["pat"]["sp"]))):
+                continue
+            found = True
+            # every block that resolves the pattern has resolved the value earlier in the same block (or an enclosing one)
+            pats = [c for c in S.walk(arm["body"]) if c["k"] == "MethodCall" and c["method"] == "resolve_pat"]
+            vals = [c for c in S.walk(arm["body"]) if c["k"] == "MethodCall" and c["method"] == "resolve_expr" and "value" in S.idents(c)]
+            par = S.Parents(arm["body"])
+            bad = []
+            for p_ in pats:
+                blocks = [a for a in par.ancestors(p_) if a["k"] == "Block"]
+                ok = False
+                for v in vals:
+                    if (v["sp"][0], v["sp"][1]) < (p_["sp"][0], p_["sp"][1]) and any(S.span_contains(b["sp"], v["sp"]) for b in blocks[:1] or blocks):
+                        ok = True
+                if not ok:
+                    bad.append(p_["sp"][0])
+            run.ob("R05.7", "resolve_expr|ELet resolves the value before the pattern", bool(pats) and bool(vals) and not bad, site(NR, arm["sp"]),
+                   f"{len(pats)} resolve_pat / {len(vals)} resolve_expr(value) calls; pattern-first at lines {bad or 'none'}",
+                   witness="fn g(f: (int32) -> int32) { let f: (int32) -> int32 = |n| f(n) + 1; .. }: the inner f refers to the new binder instead of the parameter")
+        break
+    if not found:
+        raise AnalysisIncomplete("resolve_expr: ELet arm not found")
+
+
 def run(run, model):
+    run.try_rule(r05_7, model)
     run.try_rule(r05_6, model)
     run.try_rule(r05_5, model)
     run.try_rule(r05_1, model)
